@@ -294,6 +294,7 @@ class SqliteStorage(AbstractStorage):
             + "WHERE id = ? AND bucketrow = (SELECT b.rowid FROM buckets b WHERE b.id = ?)"
         )
         cursor = self.conn.execute(query, [event_id, bucket_id])
+        self.conditional_commit(1)
         return cursor.rowcount == 1
 
     def replace(self, bucket_id, event_id, event) -> bool:
